@@ -681,6 +681,7 @@ func c13RerunOther(r *rand.Rand, g *DocGen, kind string) c13Rerun {
 }
 
 func c13RunRerun(c *Ctx) {
+	c13RunPatchRFC(c) // patch operations with related locations (c13_patch.go)
 	r := c.Rng
 	g := c13Gen()
 	for i := 0; i < c.N(700); i++ {
